@@ -2,6 +2,8 @@ open Datatypes
 
 val tl : 'a1 list -> 'a1 list
 
+val nth : nat -> 'a1 list -> 'a1 -> 'a1
+
 val nth_error : 'a1 list -> nat -> 'a1 option
 
 val removelast : 'a1 list -> 'a1 list
